@@ -20,7 +20,7 @@ use std::panic::{catch_unwind, AssertUnwindSafe};
 pub enum PStep {
     Edge(OpKind, u16, u16, EV),
     Query(u16, u16),
-    /// (root, cell, closure kind 0/1/2, filter salt)
+    /// (root, cell, closure kind: 0 none, 1 for_each, 2 filter, 3 for_each relaxing node values, 4 filter running a nested search; salt)
     Search(u16, Cell, u8, u8),
     Compare(u16, u16),
     CompareEdges(u16, u16),
@@ -105,9 +105,12 @@ pub fn run_prog<F: Flavour>(p: &Prog, st: Option<&mut Stats>) -> Vec<String> {
                     let root = pt::idx(*root, n) as Key;
                     let gc = current_graph::<F>(&nodes);
                     let view = gc.view(F::DIRECTED, cell.transposed());
-                    let meth = match mk % 3 {
+                    let meth = match mk % 5 {
                         0 => MethSpec::None,
                         1 => MethSpec::ForEach,
+                        // the Dijkstra idiom: node values move (interior mutability) while the nodes are queued
+                        3 => MethSpec::Relax,
+                        4 => crate::search::nested_filter(&gc, F::DIRECTED, cell.transposed(), [Algo::Bfs, Algo::Dfs, Algo::PfsMin][*salt as usize % 3], ((*salt as usize / 3) % n) as Key),
                         _ => {
                             let mut rej = BTreeSet::new();
                             for s in 0..view.n {
@@ -124,7 +127,7 @@ pub fn run_prog<F: Flavour>(p: &Prog, st: Option<&mut Stats>) -> Vec<String> {
                     for e in F::edges(&nodes[root as usize], IterKind::Out).into_iter().take(3) {
                         edges_seen.push(e);
                     }
-                    format!("search root {} {} -> found {:?} path {:?} nodes {:?} edges {:?} calls {:?} abnormal {} budget {} handles {}", root, cell.label(&meth), out.found, out.path, out.nodes, out.edges, out.calls, out.panic.is_some(), out.over_budget, out.handles_ok && out.found_same_alloc && out.path_access.is_none())
+                    format!("search root {} {} -> found {:?} path {:?} nodes {:?} edges {:?} calls {:?} abnormal {} budget {} handles {} final-values {:?} nested {:?}", root, cell.label(&meth), out.found, out.path, out.nodes, out.edges, out.calls, out.panic.is_some(), out.over_budget, out.handles_ok && out.found_same_alloc && out.path_access.is_none(), out.final_prio, out.nested_wrong.is_some())
                 }
                 PStep::Compare(a, b) => {
                     let (a, b) = (&nodes[pt::idx(*a, n)], &nodes[pt::idx(*b, n)]);
@@ -346,7 +349,7 @@ fn diff_pair<A: Flavour, B: Flavour>(p: &Prog, st: &mut Stats, counting: bool) -
     let step = p.steps.get(i);
     let stepname = step.map(|s| format!("{:?}", s).split('(').next().unwrap_or("").to_string()).unwrap_or_else(|| "<length>".into());
     let detail_kind = match step {
-        Some(PStep::Search(_, cell, mk, _)) => format!("Search {}", cell.label(&match mk % 3 { 0 => MethSpec::None, 1 => MethSpec::ForEach, _ => MethSpec::Filter(Default::default()) })),
+        Some(PStep::Search(_, cell, mk, _)) => format!("Search {}", cell.label(&match mk % 5 { 0 => MethSpec::None, 1 => MethSpec::ForEach, 3 => MethSpec::Relax, 4 => MethSpec::FilterNested(Algo::Bfs, 0, Default::default()), _ => MethSpec::Filter(Default::default()) })),
         _ => stepname.clone(),
     };
     let mut pp = p.clone();
@@ -372,7 +375,7 @@ pub fn run_both(p: &Prog, st: &mut Stats, counting: bool, only: Option<&str>) ->
             match s {
                 PStep::Search(_, cell, mk, _) => {
                     seen_search = true;
-                    if cell.transposed() || mk % 3 == 2 || matches!(cell, Cell::Search(c) if matches!(c.algo, Algo::PfsMin | Algo::PfsMax)) {
+                    if cell.transposed() || mk % 5 >= 2 || matches!(cell, Cell::Search(c) if matches!(c.algo, Algo::PfsMin | Algo::PfsMax)) {
                         fancy = true;
                     }
                 }
@@ -410,7 +413,7 @@ fn step_strategy() -> impl Strategy<Value = PStep> {
         10 => (kind, r(), r(), 0u32..4).prop_map(|(k, u, v, e)| PStep::Edge(k, u, v, e)),
         2 => (prop_oneof![Just(OpKind::Connect), Just(OpKind::Disconnect), Just(OpKind::TryConnect)], r(), 0u32..4).prop_map(|(k, u, e)| PStep::Edge(k, u, u, e)),
         2 => (r(), r()).prop_map(|(a, b)| PStep::Query(a, b)),
-        8 => (r(), cell_strategy(), 0u8..3, 0u8..4).prop_map(|(root, c, mk, salt)| PStep::Search(root, c, mk, salt)),
+        8 => (r(), cell_strategy(), 0u8..5, 0u8..32).prop_map(|(root, c, mk, salt)| PStep::Search(root, c, mk, salt)),
         1 => (r(), r()).prop_map(|(a, b)| PStep::Compare(a, b)),
         1 => (r(), r()).prop_map(|(a, b)| PStep::CompareEdges(a, b)),
         3 => r().prop_map(PStep::GInsert),
@@ -481,7 +484,7 @@ pub fn run(ctx: &mut Ctx) {
             // after the mutations: every cell with every closure kind from both roots, then the container observations
             let mut steps = pre.clone();
             for cell in &cells {
-                for mk in 0..3u8 {
+                for mk in 0..5u8 {
                     steps.push(PStep::Search(if code % 2 == 0 { 0 } else { 40000 }, cell.clone(), mk, (code % 4) as u8));
                 }
             }
